@@ -32,8 +32,10 @@ def build_base(rnd):
     geos = [(sz, n) for sz, n in [(8, 3), (5, 12), (40, 4), (48, 5), (17, 6), (1, 20), (100, 2), (68, 3)] if n * sz <= slot - session.DRO]
     g = lambda: rnd.choice(geos)
     update(*g(), "all", True, ["bl", "markbl int", "bl", "markbl ok"])                 # a confirmed image
-    kind = rnd.choice(["cancel", "reject", "recover", "plain"])
-    if kind == "cancel":
+    kind = rnd.choice(["cancel", "reject", "recover", "plain", "abandon", "abandon"])
+    if kind == "abandon":
+        update(*g(), "part", False, ["drop"])                # started over without cancel: its slots stay in progress until remediated
+    elif kind == "cancel":
         update(*g(), "part", False, ["drop", "cancel"])
     elif kind == "reject":
         update(*g(), "all", True, ["bl", "markbl int", "bl", "markbl bad"])
@@ -197,7 +199,7 @@ def run(chk):
     dist["bigcount(oracle only)"] = len(bcases)
     chk.note_cases("session-torn", clines + [l[:300] for l in bclines], nt, sample_n=1, dist=dist)
     return chk.finish(level="proof",
-        rule="session-torn: base histories (confirmed image; cancelled / rejected / recovered update; a completed update with copy marked; an abandoned later update incl. recover and cancel, or a fully delivered update whose image is corrupt and whose session object is lost before the final check) with power lost at every modifying operation "
+        rule="session-torn: base histories (confirmed image; cancelled / rejected / recovered / abandoned-without-cancel update; a completed update with copy marked; an abandoned later update incl. recover and cancel, or a fully delivered update whose image is corrupt and whose session object is lost before the final check) with power lost at every modifying operation "
              "(start, each handle_segment, final mark, recovery remediation, cancel, status marks; inside erase runs the first / second / last block; sampled above %d per history) and, for programs, torn outcomes: nothing, byte prefixes, and a partially programmed byte with sampled keep-masks "
              "(thorough: dense masks for the 4-byte words); plus an update with 2049..4000 fragments interrupted after a few of them (oracle only); then reboot and try_recover, bl_boot_status, fallback_firmware, validation and dump of every slot, the final check of the recovered session followed by the same inspection, start_update; non-trivial = every case; distinct by case text" % limit,
         trusted=core.TRUSTED_COMMON + ["C04: torn-write device model of SimNor / Mgr.torn_prog: a prefix of the bytes fully programmed, one byte with any subset of its bits programmed, the rest untouched; erase atomic per block"])
